@@ -338,13 +338,15 @@ func Register[C any](name string, opt Options, gen func(t *rapid.T) C, run func(
 			}
 		}
 		rec := &Rec{}
-		current.Store(&runningCase{st: st, name: name, c: c, start: time.Now(), cpu: processCPU()})
-		err := safeRun(c, rec)
-		current.Store(nil)
 		canon, jerr := json.Marshal(c)
 		if jerr != nil {
 			panic(fmt.Sprintf("case of %s not serialisable: %v", name, jerr))
 		}
+		restore := flipProcs(canon, rec)
+		current.Store(&runningCase{st: st, name: name, c: c, start: time.Now(), cpu: processCPU()})
+		err := safeRun(c, rec)
+		current.Store(nil)
+		restore()
 		if err != nil {
 			path := writeReplay(name, "rapid", canon, err)
 			st.mu.Lock()
@@ -651,8 +653,62 @@ func hungStack() string {
 	return "(not found)"
 }
 
+// The "procs" jobs (VERIF_PROCS_FLIP set; one shard is started with GOMAXPROCS=1 in the environment, the other
+// with the machine's default) execute every case with a GOMAXPROCS value chosen by the hash of the case from
+// 1, 2, 3, 4, 5, 6, 7, 12, 16: code that looks at the number of processors - once at package initialisation,
+// when an object is built, or on every call - and takes another path for one processor, for "many", or does
+// arithmetic that is only right for powers of two, meets all of these. What a correct library returns does
+// not depend on the value.
+var startProcs = runtime.GOMAXPROCS(0)
+
+var procChoices = []int{1, 1, 1, 2, 3, 4, 5, 6, 7, 12, 16}
+
+func flipProcs(canon []byte, rec *Rec) (restore func()) {
+	restore, class := FlipProcs(canon)
+	if class != "" {
+		rec.Class(class)
+	}
+	return restore
+}
+
+// FlipProcs is exported for sub-checks that drive their own loop; class is "" when the job does not vary GOMAXPROCS.
+func FlipProcs(canon []byte) (restore func(), class string) {
+	if os.Getenv("VERIF_PROCS_FLIP") == "" {
+		return func() {}, ""
+	}
+	h := fnv.New64a()
+	h.Write(canon)
+	n := procChoices[h.Sum64()>>7%uint64(len(procChoices))]
+	runtime.GOMAXPROCS(n)
+	return func() { runtime.GOMAXPROCS(startProcs) }, fmt.Sprintf("process started with GOMAXPROCS=%s, case executed with GOMAXPROCS=%d", map[bool]string{true: "1", false: "default"}[startProcs == 1], n)
+}
+
+// forceGC runs a garbage collection every few milliseconds for the whole life of the test process, so that
+// collections fall between and inside cases at arbitrary points: sync.Pool contents are dropped (two cycles),
+// finalizers and cleanups run, memory the library no longer references is recycled. Cases that pass on a
+// correct library pass with any placement of collections; code whose results are only right while a pooled
+// object, an address kept as an integer or an unsafe view stays alive gets its chance to fail.
+// VERIF_GC_MS sets the period (default 20, 0 disables).
+var gcPeriodMS = func() int {
+	if v, err := strconv.Atoi(os.Getenv("VERIF_GC_MS")); err == nil && v >= 0 {
+		return v
+	}
+	return 20
+}()
+
+func forceGC() {
+	if gcPeriodMS == 0 {
+		return
+	}
+	for {
+		time.Sleep(time.Duration(gcPeriodMS) * time.Millisecond)
+		runtime.GC()
+	}
+}
+
 func Main(m *testing.M) {
 	go watchHangs()
+	go forceGC()
 	code := m.Run()
 	writeEvidence()
 	os.Exit(code)
@@ -675,6 +731,9 @@ func writeEvidence() {
 			continue
 		}
 		s.Distinct = len(s.hashes)
+		if gcPeriodMS > 0 {
+			s.Notes = append(s.Notes, fmt.Sprintf("a garbage collection was forced every %d ms while the cases ran (collections fall between and inside cases)", gcPeriodMS))
+		}
 		ev.Props = append(ev.Props, s)
 		// hashes → sorted binary file next to the JSON
 		hs := make([]uint64, 0, len(s.hashes))
